@@ -235,9 +235,26 @@ def shrink_case(impl, model, c):
     return dict(c, proto=proto, vals=vals, resvals=resvals, body=body)
 
 
+def coqchk(chk):
+    """thorough tier: re-check the compiled property file and everything it depends on with Coq's
+    independent checker and record the axioms it reports"""
+    rc, out, err = vlib.sh(['timeout', '1500', 'coqchk', '-o', '-silent', '-Q', '.', 'MirV', 'MirV.Properties_%s' % chk.prop],
+                           cwd=vlib.COQDIR)
+    txt = out + err
+    ok = rc == 0 and 'Axioms: <none>' in txt.replace('\n  ', ' ').replace('* Axioms:\n', '* Axioms: ')
+    import re
+    m = re.search(r'\* Axioms:(.*?)\* Constants', txt, re.S)
+    chk.cov['coqchk'] = dict(rc=rc, axioms=(m.group(1).strip() if m else '?'))
+    if rc != 0:
+        chk.notes.append('coqchk failed: ' + txt[-400:])
+    return rc == 0
+
+
 def run(chk):
     quick = chk.tier == 'quick'
     r = chk.prove()
+    if not quick and r['ok'] and not coqchk(chk):
+        r = dict(r, ok=False, log=r['log'] + '\ncoqchk rejected the compiled proofs')
     impl, model = build(chk)
     chk.cov['trusted_base'] += ['extraction: ExtrOcamlBasic only, no Extract Constant/Inductive of our own',
                                 'ocaml/driver_c06.ml (parse + print), harness/c05_probe.c + c05_asm.S (assembly trampoline), '
